@@ -422,13 +422,22 @@ class C02(Check):
                 circuit.append(cirq.I(q))
         qs = sorted(circuit.all_qubits())
         reps = 1 + tape.draw(2, "reps")
-        ref = qref.QRef(qs)
+        # the returned integers are big-endian bitstrings in the caller's qubit order
+        order = list(qs)
+        if len(order) > 1 and tape.chance(1, 2, "permute-order?"):
+            order = tape.shuffle(order, "order")
+            ctx.probe("order:permuted")
+        default_order = order == qs and tape.chance(1, 3, "default-order?")
+        ref = qref.QRef(order)
         psi = ref.run(circuit, 0)[0].psi
         p = np.abs(psi) ** 2
 
         def leaf(prng):
             sim = cirq.Simulator(seed=prng, dtype=np.complex128)
-            return sim.sample_from_amplitudes(circuit, cirq.ParamResolver({}), seed=prng, repetitions=reps, qubit_order=qs)
+            if default_order:
+                return sim.sample_from_amplitudes(circuit, cirq.ParamResolver({}), seed=prng, repetitions=reps)
+            return sim.sample_from_amplitudes(circuit, cirq.ParamResolver({}), seed=prng, repetitions=reps,
+                                              qubit_order=order)
 
         try:
             leaves = sp.explore(leaf, 150)
@@ -456,7 +465,7 @@ class C02(Check):
             if abs(w.get(kk, 0.0) - expect.get(kk, 0.0)) > 1e-6 * max(4, _m.sqrt(len(leaves))):
                 raise Violation(f"{P}-DIST", f"Simulator.sample_from_amplitudes: sample multiset {dict(kk)} has probability "
                                              f"{w.get(kk, 0.0):.7f}, the Born rule gives {expect.get(kk, 0.0):.7f}\n{circuit}")
-        ctx.decide("case", "sample_from_amplitudes", repr(circuit), reps, len(leaves))
+        ctx.decide("case", "sample_from_amplitudes", repr(circuit), reps, len(leaves), repr(order), default_order)
         ctx.nontrivial = len(leaves) >= 2
         ctx.steps += len(leaves)
         ctx.state(("direct", "sample_from_amplitudes", len(qs), reps))
